@@ -319,6 +319,37 @@ struct FrameRunner {
   }
 };
 
+// ---- C09: nested arrays (not expressible as pool members): the trait on all ordered pairs ----
+template <typename A, typename B>
+void nested_pair(Ctx& c, int ia, int ib) {
+  c.line('M', "fung " + std::to_string(ia) + " " + std::to_string(ib));
+  c.line('I', nop::IsFungible<A, B>::value ? "1" : "0");
+  c.stat("nested-array pairs");
+}
+template <typename A>
+void nested_row(Ctx& c, int ia) {
+  nested_pair<A, std::int32_t[2][3]>(c, ia, 9001);
+  nested_pair<A, std::int32_t[2][4]>(c, ia, 9002);
+  nested_pair<A, std::array<std::array<std::int32_t, 3>, 2>>(c, ia, 9003);
+  nested_pair<A, std::array<std::int32_t[3], 2>>(c, ia, 9004);
+  nested_pair<A, std::array<std::int32_t[4], 2>>(c, ia, 9005);
+  nested_pair<A, std::vector<std::array<std::int32_t, 3>>>(c, ia, 9006);
+}
+void nested_arrays(Ctx& c) {
+  c.line('M', "T 9001 (seq (carray 2) (seq (carray 3) (int i32)))");
+  c.line('M', "T 9002 (seq (carray 2) (seq (carray 4) (int i32)))");
+  c.line('M', "T 9003 (seq (array 2) (seq (array 3) (int i32)))");
+  c.line('M', "T 9004 (seq (array 2) (seq (carray 3) (int i32)))");
+  c.line('M', "T 9005 (seq (array 2) (seq (carray 4) (int i32)))");
+  c.line('M', "T 9006 (seq vector (seq (array 3) (int i32)))");
+  nested_row<std::int32_t[2][3]>(c, 9001);
+  nested_row<std::int32_t[2][4]>(c, 9002);
+  nested_row<std::array<std::array<std::int32_t, 3>, 2>>(c, 9003);
+  nested_row<std::array<std::int32_t[3], 2>>(c, 9004);
+  nested_row<std::array<std::int32_t[4], 2>>(c, 9005);
+  nested_row<std::vector<std::array<std::int32_t, 3>>>(c, 9006);
+}
+
 template <int K>
 void run_pairs(Ctx& c) {
   if constexpr (K < pool::kPairCount) {
@@ -350,6 +381,7 @@ int main(int argc, char** argv) {
     else if (a == "--values" && i + 1 < argc) c.nvalues = std::atoi(argv[++i]);
     else { std::fprintf(stderr, "bad arg %s\n", a.c_str()); return 2; }
   }
+  if (c.mode == "fung" && SHARD == 0) nested_arrays(c);
   if (c.mode == "xver" || c.mode == "fung" || c.mode == "xcut") run_pairs<0>(c);
   else if (c.mode == "frame") run_frames<0>(c);
   else { std::fprintf(stderr, "unknown mode\n"); return 2; }
